@@ -268,7 +268,14 @@ def r5_fixpoint(chk):
             common.is_self_attr(s.targets[0].value, '_postponedSyms')]
     chk.ob('C01.R5', 'regSym/postpones-otherwise', len(post) == 1 and bool(ir.guards_of(post[0], rs)), where(mod, rs), '')
     dup = [x for x in walk_no_nested(rs) if isinstance(x, ast.Raise)]
-    chk.ob('C01.R5', 'regSym/duplicate-raises', len(dup) == 1, where(mod, rs), '')
+    # a symbol already registered or already postponed is refused (the source model shows `if a or b: raise` as two guards)
+    sym = rs.args.args[1].arg
+    tests = set()
+    for x in dup:
+        for t, b in ir.guards_of(x, rs):
+            tests.update(norm(c) for c in ir.conjuncts(t))
+    ok = bool(dup) and '%s in self._out' % sym in tests and '%s in self._postponedSyms' % sym in tests
+    chk.ob('C01.R5', 'regSym/duplicate-raises', ok, where(mod, rs), 'guards of the duplicate-symbol error: %s' % sorted(tests))
     # drain reaches a fixpoint
     self_calls = [c for c in walk_no_nested(rp) if isinstance(c, ast.Call) and norm(c.func) == 'self.regPostponedSyms']
     loops = [n for n in walk_no_nested(rp) if isinstance(n, ast.While)]
@@ -417,5 +424,34 @@ def r6_translate(chk):
             chk.ob('C01.R6', o.key, o.ok, o.where, o.detail)
 
 
+def r9_symbol_tables_keyed_by_module_name(chk):
+    """OID parents are resolved through symbolTable[<module name>]: compile() must file each symbol table under the
+    name the module declares, not under the name it was asked for"""
+    model = chk.model
+    r = cr.infer(model)
+    fn, mod = r.fn, r.mod
+    chk.doc('C01.R9', 'compile(): `info, table = <symbol generator>.genCode(tree, MAP)` is followed, unconditionally, '
+                      'by `MAP[info.name] = table`; the same MAP is what the code generator receives as symbolTable=')
+    assigns = [s_ for s_ in walk_no_nested(fn) if isinstance(s_, ast.Assign)]
+    b = common.pfind(assigns, '$mi, $st = self._symbolgen.genCode($tree, $map)')
+    chk.ob('C01.R9', 'compile/symbol-generator-call', b is not None, where(mod, fn), '')
+    if b is None:
+        return
+    stores = [s_ for s_ in assigns if isinstance(s_.targets[0], ast.Subscript) and norm(s_.targets[0].value) == b['map']]
+    ok = len(stores) == 1 and norm(stores[0].targets[0].slice) == '%s.name' % b['mi'] and norm(stores[0].value) == b['st']
+    chk.ob('C01.R9', 'compile/table-filed-under-declared-name', ok, where(mod, stores[0]) if stores else where(mod, fn),
+           'symbol table stores: %s (expected %s[%s.name] = %s)' % ([norm(s_) for s_ in stores], b['map'], b['mi'], b['st']))
+    if stores:
+        gen = [s_ for s_ in assigns if common.pmatch(s_, '$mi, $st = self._symbolgen.genCode($tree, $map)')][0]
+        same_block = getattr(stores[0], '_parent', None) is getattr(gen, '_parent', None)
+        chk.ob('C01.R9', 'compile/table-filed-unconditionally', same_block, where(mod, stores[0]),
+               'the store must follow the generator call in the same block')
+    calls = [c for c in walk_no_nested(fn) if isinstance(c, ast.Call) and norm(c.func) == 'self._codegen.genCode']
+    ok = len(calls) == 1 and ([norm(k.value) for k in calls[0].keywords if k.arg == 'symbolTable'] == [b['map']] or
+                              (len(calls[0].args) >= 2 and norm(calls[0].args[1]) == b['map']))
+    chk.ob('C01.R9', 'compile/code-generator-gets-the-map', ok, where(mod, calls[0]) if calls else where(mod, fn),
+           'symbolTable= of the code generator call')
+
+
 RULES = [r1_subidentifier_shapes, r2_genoid, r3_numeric, r4_trap, r5_fixpoint, r6_translate, r7_plumbing,
-         r7b_summary_not_aliased, r8_normalisation]
+         r7b_summary_not_aliased, r8_normalisation, r9_symbol_tables_keyed_by_module_name]
